@@ -393,15 +393,17 @@ def check_self_balance(rec, fd, s, prop="C03"):
     # perturbation probes on the live object (restored afterwards)
     big = 1e3 * (1.0 + float(np.max(dt)))
     small = 0.05 / max(1.0, float(np.max(dt)), float(1.0 / np.min(dt))) / max(1, len(items))
-    for name in ("stock", "inflow", "outflow"):
+    probes = [(name, where) for name in ("stock", "inflow", "outflow") for where in ("middle", "first-step", "last-step")]
+    for name, where in probes:
         arr = getattr(s, name).values
-        pos = tuple(int(x) for x in np.unravel_index(arr.size // 2, arr.shape))
+        flat = {"middle": arr.size // 2, "first-step": 0, "last-step": arr.size - 1}[where]  # time is the first axis
+        pos = tuple(int(x) for x in np.unravel_index(flat, arr.shape))
         old = arr[pos].copy()
         try:
             arr[pos] = old + big
             try:
                 s.check_stock_balance()
-                viol(f"check_stock_balance-accepts-a-perturbed-{name}", delta=big)
+                viol(f"check_stock_balance-accepts-a-perturbed-{name}" + ("" if where == "middle" else f":{where}"), delta=big)
             except Exception:
                 pass
             arr[pos] = old + small
